@@ -472,7 +472,4 @@ EndedMeansRolledBack ==
        /\ circ'[att[op'.c].dst] = circ[att[op'.c].dst] - 1
        /\ svc'.spans = svc.spans - 1]_vars
 
-\* vacuity probes (expected to be violated)
-ReachOpen == ~(\E c \in Slots : att[c].st = "open")
-ReachExpiredServing == ~(\E p \in Peers : rsvp[p] # None /\ rsvp[p] < 0)
 =============================================================================
